@@ -38,8 +38,7 @@ META = dict(
     bounds=['operations: put (3 cycles x 3 namespaces x 4 settings x 3 '
             'values incl. the empty string), clear (cycle/namespace filters, optional key), expire '
             '(cutoff 1..3); 2 quick / 3 thorough (the third operation: any clear '
-            'or expire, or a put of a nested / multi-key setting with value '
-            'v1 or the empty string)'],
+            'or expire)'],
     stubs=['scheduler stand-in (config, run mode)', 'data_store_mgr',
            'broadcast_states table: dictionary model'],
     assumptions=[],
@@ -172,7 +171,7 @@ def history(k1: int, c1: int, n1: int, s1: int, v1: int,
     pre: (k2 != 2 or n2 == 0) and (k3 != 2 or n3 == 0) and (k4 != 2 or n4 == 0)
     pre: SLICE['n'] >= 4 or (k4 == 0 and c4 == 0 and n4 == 0 and s4 == 0 and v4 == 0)
     pre: SLICE['n'] >= 3 or (k3 == 0 and c3 == 0 and n3 == 0 and s3 == 0 and v3 == 0)
-    pre: SLICE['n'] < 3 or k3 != 0 or (s3 in (1, 3) and v3 in (0, 2))
+    pre: SLICE['n'] < 3 or k3 != 0
     post: _
     """
     raw = [(k1, c1, n1, s1, v1), (k2, c2, n2, s2, v2), (k3, c3, n3, s3, v3),
